@@ -1,15 +1,147 @@
-(** C06 — iterators return exactly the live snapshot in order, honouring options. *)
-From Coq Require Import List NArith Bool.
+(** C06 — iterators return exactly the live snapshot in order, honouring options.
+
+    Model: Model/LsmIter.v ([current] = the code after the repairs of
+    /verif/fixes/C06-*.md, [legacy] = the code as found).  Specification:
+    Spec/IterSpec.v ([spec_scan] over the history of acknowledged writes). *)
+From Coq Require Import List NArith Bool String.
 From NoKV Require Import Base.Bytes Model.Keys Model.Lsm Spec.MvccSpec Proofs.LsmOrder Spec.LsmSpec
-     Proofs.LsmGet Model.LsmIter Spec.IterSpec Proofs.IterProofs.
+     Proofs.LsmGet Proofs.LsmMain Spec.LsmInvB Model.LsmIter Spec.IterSpec Proofs.IterProofs.
 Import ListNotations.
 Local Open Scope N_scope.
 
 (** The merged internal stream under every iterator (sources in the order of
-    lsm.NewIterators, binary tree of MergeIterators) is sorted, and a seek on it
-    answers exactly like the point read LSM.Get, for every key and version. *)
+    lsm.NewIterators, binary tree of MergeIterators, left node kept on equal
+    internal keys) answers a seek exactly like the point read LSM.Get, for
+    every state satisfying the LSM ordering invariant, every key and version. *)
 Theorem C06_merged_stream_matches_get : forall s k v,
   iter_inv s -> seq_functional (all_recs (tiers_of s)) ->
-  src_search k v (db_stream current s false PRewind) = get s k v.
+  src_search k v (db_stream current s false PRewind) = Lsm.get s k v.
 Proof. exact stream_get. Qed.
 Print Assumptions C06_merged_stream_matches_get.
+
+(** Forward transaction scans (Rewind, then Next until invalid), for EVERY record of Prefix /
+    prefixIsKey (NewKeyIterator's filter) / SinceTs / LowerBound / UpperBound /
+    KeyOnly, every read timestamp and every state satisfying the LSM ordering
+    invariant whose contents are the history [ws]: the items are exactly
+    [spec_scan] — the live newest visible version of every key of the default
+    column family inside the bounds, in ascending user-key order, once. *)
+Theorem C06_txn_iter : forall now s ws readTs o,
+  iter_inv s -> content_ok s ws -> seq_functional ws -> (forall w, In w ws -> wf_key w = true) ->
+  o_rev o = false -> o_all o = false ->
+  map item_sitem (txn_list current now s readTs [] o ARewind) = spec_scan now ws [] readTs (sopts_of o None)
+  /\ Forall (fun i => i_cf i = cf_default) (txn_list current now s readTs [] o ARewind).
+Proof. exact txn_scan_fwd. Qed.
+Print Assumptions C06_txn_iter.
+
+(** The same with AllVersions (and hence for Txn.NewKeyIterator, which is
+    AllVersions + prefixIsKey): every live version at or below readTs of every
+    key inside the bounds, keys ascending, versions newest first, each once. *)
+Theorem C06_txn_iter_all_versions : forall now s ws readTs o,
+  iter_inv s -> content_ok s ws -> seq_functional ws -> (forall w, In w ws -> wf_key w = true) ->
+  o_rev o = false -> o_all o = true ->
+  map item_sitem (txn_list current now s readTs [] o ARewind) = spec_scan now ws [] readTs (sopts_of o None).
+Proof. exact txn_scan_fwd_all. Qed.
+Print Assumptions C06_txn_iter_all_versions.
+
+(** ... and every listed value is what a point read of the snapshot returns. *)
+Theorem C06_matches_get : forall now s ws readTs o i,
+  iter_inv s -> content_ok s ws -> seq_functional ws -> (forall w, In w ws -> wf_key w = true) ->
+  o_rev o = false -> o_all o = false ->
+  In i (txn_list current now s readTs [] o ARewind) ->
+  spec_get now ws [] readTs (i_key i) = Some (i_val i).
+Proof. exact txn_scan_fwd_get. Qed.
+Print Assumptions C06_matches_get.
+
+(** The hypotheses are satisfiable on a state with a memtable, a sealed
+    memtable and an L0 table, a tombstone shadowing an older version, and
+    byte-prefix keys; the listing there is a@3, ab@3 (b is deleted). *)
+Theorem C06_txn_iter_nonvacuous :
+  iter_inv s_ex /\ content_ok s_ex w_ex /\ seq_functional w_ex /\ (forall w, In w w_ex -> wf_key w = true).
+Proof. exact ex_hyps. Qed.
+Print Assumptions C06_txn_iter_nonvacuous.
+
+(** Reverse scans.  With AllVersions the listing is the forward listing
+    mirrored (keys descending, versions of a key oldest first), for every
+    option record.  Without AllVersions the full statement is refuted
+    (C06_txn_iter_reverse_refuted, finding C06-F9); it holds exactly outside
+    that class: when no key has two versions visible at readTs. *)
+Theorem C06_txn_iter_reverse_all_versions : forall now s ws readTs o,
+  iter_inv s -> content_ok s ws -> seq_functional ws -> (forall w, In w ws -> wf_key w = true) ->
+  o_rev o = true -> o_all o = true ->
+  map item_sitem (txn_list current now s readTs [] o ARewind) = spec_scan now ws [] readTs (sopts_of o None).
+Proof. exact txn_scan_rev_all. Qed.
+Print Assumptions C06_txn_iter_reverse_all_versions.
+
+Theorem C06_txn_iter_reverse_partial : forall now s ws readTs o,
+  iter_inv s -> content_ok s ws -> seq_functional ws -> (forall w, In w ws -> wf_key w = true) ->
+  no_repeat (filter (visible readTs) (fstream s)) = true ->
+  o_rev o = true -> o_all o = false ->
+  map item_sitem (txn_list current now s readTs [] o ARewind) = spec_scan now ws [] readTs (sopts_of o None).
+Proof. exact txn_scan_rev_partial. Qed.
+Print Assumptions C06_txn_iter_reverse_partial.
+
+Theorem C06_txn_iter_reverse_partial_nonvacuous :
+  no_repeat (filter (visible max_u64) (fstream s_db)) = true.
+Proof. exact ex_rev_hyp. Qed.
+Print Assumptions C06_txn_iter_reverse_partial_nonvacuous.
+
+(** DB.NewIterator, forward, any bounds: outside the class of known finding
+    C06-F10 (the merged stream holds default-column-family records only and one
+    version per key — [simple_stream]) the listing is [spec_scan] at the maximal
+    read timestamp: live keys only (tombstones and expired entries skipped). *)
+Theorem C06_db_iter_partial : forall now s ws od,
+  iter_inv s -> content_ok s ws -> seq_functional ws ->
+  (forall w, In w ws -> wf_key w = true /\ r_ver w <= max_u64) ->
+  simple_stream (fstream s) = true -> d_asc od = true ->
+  map item_sitem (db_list current now s od ARewind) = spec_scan now ws [] max_u64 (sopts_of_d od None).
+Proof. exact db_scan_fwd_partial. Qed.
+Print Assumptions C06_db_iter_partial.
+
+Theorem C06_db_iter_partial_nonvacuous :
+  iter_inv s_db /\ content_ok s_db w_db /\ seq_functional w_db /\
+  (forall w, In w w_db -> wf_key w = true /\ r_ver w <= max_u64) /\ simple_stream (fstream s_db) = true.
+Proof. exact ex_db_hyps. Qed.
+Print Assumptions C06_db_iter_partial_nonvacuous.
+
+(** The boolean oracle of the correspondence decides the specification. *)
+Theorem C06_oracle_decides : forall now ws pw readTs o l,
+  scan_ok_b now ws pw readTs o l = true <-> is_scan now ws pw readTs o l.
+Proof. exact scan_ok_b_spec. Qed.
+Print Assumptions C06_oracle_decides.
+
+(** Refuted on the code as found (repaired since):
+    F8 — a committed delete of b leaves b in the forward scan;
+    F3 — of two sealed memtables holding the same internal key the iterator took the older. *)
+Theorem C06_txn_iter_legacy_refuted :
+  tier_inv_b s_f8 = true /\
+  scan_ok_b 100 w_f8 [] 2 (sopts_of (plain_opts false false) None)
+            (map item_sitem (txn_list legacy 100 s_f8 2 [] (plain_opts false false) ARewind)) = false /\
+  scan_ok_b 100 w_f8 [] 2 (sopts_of (plain_opts false false) None)
+            (map item_sitem (txn_list current 100 s_f8 2 [] (plain_opts false false) ARewind)) = true.
+Proof. exact f8_legacy_refuted. Qed.
+Print Assumptions C06_txn_iter_legacy_refuted.
+
+Theorem C06_merged_stream_legacy_refuted :
+  tier_inv_b s_f3 = true /\
+  option_map r_val (src_search (sbase (of_string "a")) max_u64 (db_stream legacy s_f3 false PRewind)) = Some (of_string "1") /\
+  option_map r_val (Lsm.get s_f3 (sbase (of_string "a")) max_u64) = Some (of_string "2") /\
+  option_map r_val (src_search (sbase (of_string "a")) max_u64 (db_stream current s_f3 false PRewind)) = Some (of_string "2").
+Proof. exact f3_legacy_refuted. Qed.
+Print Assumptions C06_merged_stream_legacy_refuted.
+
+(** Refuted on the current code (known findings):
+    C06-F9 — a reverse scan lists the oldest visible version;
+    C06-F10 — DB.NewIterator lists every version. *)
+Theorem C06_txn_iter_reverse_refuted :
+  tier_inv_b s_f9 = true /\
+  scan_ok_b 100 w_f9 [] 2 (sopts_of (plain_opts true false) None)
+            (map item_sitem (txn_list current 100 s_f9 2 [] (plain_opts true false) ARewind)) = false.
+Proof. exact f9_reverse_refuted. Qed.
+Print Assumptions C06_txn_iter_reverse_refuted.
+
+Theorem C06_db_iter_refuted :
+  tier_inv_b s_f9 = true /\
+  scan_ok_b 100 w_f9 [] max_u64 (sopts_of (plain_opts false false) None)
+            (map item_sitem (db_list current 100 s_f9 dflt_dopts ARewind)) = false.
+Proof. exact f10_db_refuted. Qed.
+Print Assumptions C06_db_iter_refuted.
